@@ -43,8 +43,17 @@ func OtherTarget(r *vf.Run) {
 		r.SetExtra("goarch_386", "the harness did not build for GOARCH=386 against this tree: not run there")
 		return
 	}
-	runChildExe(r, exe, "goarch-386", "GOGC=10", "GOMAXPROCS=12")
+	runChildExe(r, exe, "goarch-386", "GOGC=10", "GOMAXPROCS=12", "VERIF_ERRORS_FIRST=1")
 	r.SetExtra("goarch_386", "whole monitor repeated in a GOARCH=386 build (made with go1.26.8 where installed) with GOGC=10 and GOMAXPROCS=12")
+}
+
+// ErrorsFirstChild: for the monitors that are cheap enough, one more child on the native target whose
+// first use of the library is ErrorsFirst (the 386 child of every monitor starts that way as well).
+func ErrorsFirstChild(r *vf.Run) {
+	switch r.ID {
+	case "C06", "C07", "C09", "C10", "C13", "C15", "C16", "C17":
+		runChild(r, "errors-first", "VERIF_ERRORS_FIRST=1")
+	}
 }
 
 func runChildExe(r *vf.Run, exe, label string, env ...string) {
